@@ -317,6 +317,28 @@ func (fc *fileCtx) rewrite(stats map[string]int) bool {
 					changed = true
 				}
 			}
+			// len(ch) on a channel observes state that other tasks change: it becomes a
+			// scheduling point (func() int { simrt.Yield("chan-len"); return len(ch) }()),
+			// so that check-then-act sequences on a channel's fill level are explored
+			if id, ok := n.Fun.(*ast.Ident); ok && id.Name == "len" && len(n.Args) == 1 {
+				if _, isB := info.Uses[id].(*types.Builtin); isB {
+					if tv, ok := info.Types[n.Args[0]]; ok && tv.Type != nil {
+						if _, isCh := tv.Type.Underlying().(*types.Chan); isCh {
+							lit := &ast.FuncLit{
+								Type: &ast.FuncType{Params: &ast.FieldList{}, Results: &ast.FieldList{List: []*ast.Field{{Type: ast.NewIdent("int")}}}},
+								Body: &ast.BlockStmt{List: []ast.Stmt{
+									&ast.ExprStmt{X: call("simrt", "Yield", &ast.BasicLit{Kind: token.STRING, Value: strconv.Quote("chan-len")})},
+									&ast.ReturnStmt{Results: []ast.Expr{&ast.CallExpr{Fun: ast.NewIdent("len"), Args: n.Args}}},
+								}},
+							}
+							c.Replace(&ast.CallExpr{Fun: lit})
+							fc.needRT = true
+							stats["T3-chanlen"]++
+							changed = true
+						}
+					}
+				}
+			}
 		case *ast.SelectStmt:
 			c.Replace(fc.rewriteSelect(n))
 			fc.needRT = true
